@@ -159,7 +159,7 @@ def instantiate(hyps, goal):
     reference-sorted variables, at the object references the goal mentions.  Pure instantiation: sound."""
     import itertools
     fc = free_consts(goal)
-    cands = list(fc)
+    cands = list(fc) + _index_consts(goal)
     refs = _ref_terms(goal)
     if not cands and not refs:
         return []
@@ -186,6 +186,25 @@ def instantiate(hyps, goal):
                 if count >= 40:
                     break
     return out
+
+
+def _index_consts(t, limit=4):
+    """integer constants introduced by the map rule for "an arbitrary position of the sequence" (j!n): a quantified
+    hypothesis about every element is instantiated at them"""
+    out, seen, stack = {}, set(), [t]
+    while stack and len(out) < limit:
+        x = stack.pop()
+        if x.get_id() in seen:
+            continue
+        seen.add(x.get_id())
+        if z3.is_quantifier(x):
+            continue
+        if z3.is_app(x):
+            if x.num_args() == 0 and x.decl().kind() == z3.Z3_OP_UNINTERPRETED and x.sort() == z3.IntSort() and \
+                    x.decl().name().startswith("j!"):
+                out[x.get_id()] = x
+            stack.extend(x.children())
+    return list(out.values())
 
 
 def _top_foralls(t):
